@@ -268,6 +268,11 @@ Fixpoint otree_eqb (a b : otree) : bool :=
      | _, _ => false
      end) k1 k2.
 
+(* run-length helper for the case files: n cells equal to c at start, start+stride, ... *)
+Fixpoint zrun_nat (start stride : Z) (n : nat) (c : wcell) : list (Z * wcell) :=
+  match n with O => [] | S n' => (start, c) :: zrun_nat (start + stride) stride n' c end.
+Definition zrun (start stride n : Z) (c : wcell) : list (Z * wcell) := zrun_nat start stride (Z.to_nat n) c.
+
 (* a draw case: widget, Max.Width, Max.Height; observed outcome (0 ok / 1 panic) and tree *)
 Definition draw_input : Type := wspec * Z * Z.
 Definition draw_obs : Type := Z * otree.
